@@ -1,6 +1,7 @@
 //! `sim` — deterministic simulator for geo-booleanop (see /verif/DESIGN.md).
 mod batch;
 mod c17;
+mod c18;
 mod heap;
 mod rng;
 
@@ -45,6 +46,34 @@ fn plan_c17(tier: Tier) -> (Plan, Extra) {
     (plan, extra)
 }
 
+fn plan_c18(tier: Tier) -> (Plan, Extra) {
+    let workers = batch::workers_default().min(12);
+    let g = c18::grid_len(tier);
+    let plan = match tier {
+        Tier::Quick => Plan { runs: g + 100, budget_s: 200.0, selftest_runs: 12, workers },
+        Tier::Thorough => Plan { runs: g + 1500, budget_s: 3000.0, selftest_runs: 40, workers },
+    };
+    let mut coverage = Map::new();
+    coverage.insert("components".into(), json!({
+        "real": ["geo_booleanop::splay (SplayTree, SplaySet, IntoIter)", "geo_booleanop::boolean (whole operation, for the comb scenarios)"],
+        "simulated": ["stack budget of the calling thread (8 MiB and 2 MiB)", "the history that shapes the tree", "process crash containment (child process per scenario)", "comparator / element drop callbacks (stack probe)"],
+        "stubbed": []}));
+    coverage.insert("fault_kinds".into(), json!(["stack budget (resource exhaustion)", "cancelled consumption (iterator dropped after j items)"]));
+    coverage.insert("grid_scenarios".into(), json!(g));
+    let extra = Extra {
+        coverage,
+        assumptions: vec![
+            "stack budgets are the two the property names (8 MiB, 2 MiB); optimised build of the harness".into(),
+            "an O(log n) recursion would pass: only exhaustion (signal, or probe within 64 KiB of the budget) is a violation".into(),
+        ],
+        rule: "one evaluation = one child process running one scenario (container kind, insertion-order shape, size, optional restructuring, teardown mode, stack budget) or one Boolean operation on a comb polygon whose sweep stops early; the first grid_scenarios indices are a fixed full-scale grid, the rest are seeded; distinct_nontrivial = distinct (kind, shape, teardown, budget, restructuring, size decade) tuples, all with >= 1e5 keys or >= 8e4 edges".into(),
+        level: "fault_enumeration",
+        extra_violations: 0,
+        extra_evaluations: 0,
+    };
+    (plan, extra)
+}
+
 fn main() {
     let args: Vec<String> = std::env::args().collect();
     if args.len() < 3 {
@@ -55,9 +84,11 @@ fn main() {
             silence_panics();
             match args[2].as_str() {
                 "C17" => batch::worker_main::<c17::C17World>(&args[3..]),
+                "C18" => batch::worker_main::<c18::C18World>(&args[3..]),
                 _ => usage(),
             }
         }
+        "stack-child" => c18::child_main(&args[2]),
         "replay" => {
             silence_panics();
             let text = match std::fs::read_to_string(&args[2]) {
@@ -70,6 +101,7 @@ fn main() {
             let v: Value = serde_json::from_str(&text).unwrap_or(Value::Null);
             match v["property"].as_str() {
                 Some("C17") => batch::replay_main::<c17::C17World>(&v),
+                Some("C18") => batch::replay_main::<c18::C18World>(&v),
                 _ => {
                     println!("HARNESS-ERROR replay file names no known property");
                     2
@@ -82,6 +114,10 @@ fn main() {
                 "C17" => {
                     let (plan, extra) = plan_c17(tier);
                     batch::parent_main::<c17::C17World>(tier, plan, extra)
+                }
+                "C18" => {
+                    let (plan, extra) = plan_c18(tier);
+                    batch::parent_main::<c18::C18World>(tier, plan, extra)
                 }
                 _ => usage(),
             }
